@@ -47,6 +47,7 @@ class blockiterator(object):
         if padding:
             nPi = self.lastblock(Pi,**kargs)
             b,lastb= nPi[:self.blocklen],nPi[self.blocklen:]
+            if len(Pi)==0: self.bitcnt = 0
             yield b
             if len(lastb)>0:
                 self.bitcnt = 0
